@@ -11,6 +11,9 @@ structure St where
   handle : Handle := ⟨⟨[], none⟩, [], 0, []⟩
   specs : List (String × LogSpec) := []          -- named specs
   sched : List (Nat × LogSpec × Nat) := []       -- C12: pending B steps (thread, spec, gate value)
+  c13 : Bool := false                            -- a WRITER line carried a kind
+  dupErr : Nat := 0                              -- C13: duplication levels
+  dupOut : Nat := 0
   lock : Option Nat := none                      -- C12: lock holder
   waiting : List (Nat × LogSpec) := []
   gateOf : List (Nat × Nat) := []
@@ -60,11 +63,12 @@ def gridStr (st : St) (tgs : List String) : String :=
 /-- which behaviour of `parse_and_push_temp_spec` the model follows (current code = pushes first) -/
 def step (st : St) (toks : List String) : St × String :=
   match toks with
-  | ["WRITER", n, c] =>
+  | "WRITER" :: n :: c :: kind =>
     match hexToText n, c.toNat? with
     | some n, some c =>
-      let ws := st.writers ++ [⟨n, c⟩]
-      ({ st with writers := ws, handle := { st.handle with ceilings := ws.map (·.ceiling) } }, "ok")
+      let ws := st.writers ++ [⟨n, c, kind ≠ ["rec"]⟩]
+      ({ st with writers := ws, c13 := st.c13 || !kind.isEmpty,
+                 handle := { st.handle with ceilings := ws.map (·.ceiling) } }, "ok")
     | _, _ => (st, "bad-op")
   -- define a spec from explicit filters (as returned by the implementation's `module_filters()`)
   | ["SPEC", id, fs, rx] =>
@@ -167,11 +171,30 @@ def step (st : St) (toks : List String) : St × String :=
         else mt = "1"
       let r := route st.handle.active st.writers lvl t m mbit
       if r.panic then (st, "panic") else
-      let ws := r.deliveries.filterMap (fun d => match d with | .writer n => some ("w" ++ textToHex n) | .unknown _ => none)
+      -- receipts are observable for recording (custom) writers only
+      let ws := r.deliveries.filterMap (fun d => match d with
+        | .writer n => (match lookup st.writers n with
+            | some w => if st.c13 && w.honoursCeiling then none else some ("w" ++ textToHex n)
+            | none => none)
+        | .unknown _ => none)
       let unk := (r.deliveries.filter (fun d => match d with | .unknown _ => true | _ => false)).length
+      let em := (emitted st.writers r lvl).map (fun n => "w" ++ textToHex n)
       (st, "default=" ++ boolStr r.default ++ " to=" ++
-        (if ws.isEmpty then "-" else ",".intercalate ws) ++ " unknown=" ++ toString unk)
+        (if ws.isEmpty then "-" else ",".intercalate ws) ++ " unknown=" ++ toString unk ++
+        (if st.c13 then " emitted=" ++ (if em.isEmpty then "-" else ",".intercalate em) else ""))
     | _, _, _ => (st, "bad-op")
+  | ["DUPINIT", e, o] =>
+    match e.toNat?, o.toNat? with
+    | some e, some o => ({ st with dupErr := e, dupOut := o }, "ok")
+    | _, _ => (st, "bad-op")
+  | ["DUPADAPT", which, d] =>
+    match d.toNat? with
+    | some d => (if which = "err" then { st with dupErr := d } else { st with dupOut := d }, "ok")
+    | none => (st, "bad-op")
+  | ["DUPLOG", lvl, _msg] =>
+    match lvl.toNat? with
+    | some lvl => (st, "err=" ++ boolStr (dupDecision st.dupErr lvl) ++ " out=" ++ boolStr (dupDecision st.dupOut lvl))
+    | none => (st, "bad-op")
   | ["DUP", d, lvl] =>
     match d.toNat?, lvl.toNat? with
     | some d, some lvl => (st, boolStr (dupDecision d lvl))
